@@ -22,7 +22,7 @@ CLAIMED = {
               'tellLrForFrame walk) refines the abstract sequence semantics (RleAbs.tla) for every integer sequence over '
               '-2..3 up to length 5/6 and every record-triple sequence up to length 5/6; the call history of real objects '
               '(every such short sequence exhaustively with interleaved queries, long seeded-random histories, and a float '
-              'lattice variant) is validated event by event by TLC against RleTrace.tla (abstract state only).'),
+              'lattice variant) is validated event by event by TLC against RleTrace.tla (abstract state only).  In situ: every RLE object the library creates while writing the RP66V1 XML index / HTML scan of generated files and the ones of the repository test_Rle.py are recorded call by call and validated against RleTrace.tla.'),
         note='Trusts TLC/Json module; float closeness bound (n+4)*eps*max(...) is checked by the harness, the lattice index by TLC.',
         technique='TLA+ spec + TLC model checking (design refinement) + TLC trace validation of real call histories'),
     'C01': dict(
@@ -50,7 +50,7 @@ CLAIMED = {
               'sequence over a set of layouts covering every split shape, and that the greedy writer split is a valid '
               'split; operation histories on one real FileRead per generated file (any valid split and trailer mix, TIF '
               'none/normal/reversed), the real FileWrite output parsed by an independent LIS-79 parser (bits, trailers, '
-              'TIF chain, returned positions, payload), read-back and strip_tif are validated by TLC against LisPhysTrace.'),
+              'TIF chain, returned positions, payload), read-back and strip_tif are validated by TLC against LisPhysTrace.  In situ: the reads, skips, seeks, tells and EOF flags that the real FileIndex and LogPass.setFrameSet issue on ONE real FileRead of a generated LIS file with real content are recorded by wrapping the instance and validated against LisPhysAbs as well.'),
         note='Trusts TLC, the independent renderer/parser in harness/gen/lis.py and the bytes->range projection; n >= 1 reads.',
         technique='TLA+ spec + TLC model checking over all operation sequences; TLC trace validation of reader/writer histories'),
     'C18': dict(
@@ -60,7 +60,7 @@ CLAIMED = {
               'closed behaviour is replayed on the real XmlStream/XhtmlStream/Element with concrete characters and parsed '
               'back by expat and lxml; every code point (quick: 0..0x2FF + boundaries + 3000 random; thorough: whole BMP + '
               'astral sample) is swept in text and attribute position; the API-call streams of real document writers are '
-              'captured in-process and validated with the parsed document by TLC against XmlStreamTrace.tla.'),
+              'captured in-process and validated with the parsed document by TLC against XmlStreamTrace.tla.  Also validated as call streams + documents: SVG log plots with hostile titles, and every XmlStream created by the repository\'s own writer tests (TestXmlWrite, TestHtmlUtils, TestSVGWriter, test_ToHTML, TestTrack) run under the recorder; LAS HTML must carry every description / string value of the LAS file unchanged.'),
         note=('Trusts expat/lxml as judges of well-formedness. Known finding F7 (illegal character references) is listed in '
               'known_findings.json; affected documents are judged after replacing exactly those references. Writers covered so '
               'far: XmlStream itself, LASToHTML; RP66V1 XML index / HTML and LIS HTML are added with their generators.'),
@@ -197,7 +197,7 @@ CLAIMED = {
               'indexed by the real LogicalIndex and histories of populate_frame_array calls on the same logical file are recorded: '
               'returned count and, per channel, the record each row came from, validated by TLC against DlisFramesTrace.tla '
               '(slice = Python slicing exactly, sample = any valid spread); dtype, shape, element values, frame numbers and X values '
-              'of the index are checked as well.'),
+              'of the index are checked as well.  Slices with negative steps are included (PySliceAny).  A third of the files are indexed through the persisted (pickled) index of IndexPickle.'),
         note='Values are unique per record so the row -> record projection is exact; selections select >= 1 frame.',
         technique='TLA+ spec + TLC model checking of populate histories; TLC trace validation of real populate histories'),
     'C11': dict(
@@ -228,7 +228,7 @@ CLAIMED = {
               '(per-process event files); each run is one trace (start / take / finish / end) validated by TLC against BatchTrace.tla, whose '
               'constants are the isolated conversions of every file (done twice, must agree): results and output tree (digests without the '
               'creation-time line) must equal the isolated ones.  Fault enumeration: a valid file per format truncated / bit-flipped / overwritten '
-              'at enumerated positions plus empty and foreign files, converted under a watchdog: always a result, never an escaping exception.'),
+              'at enumerated positions plus empty and foreign files, converted under a watchdog: always a result, never an escaping exception.  The task list: DirWalk.tla (every file in scope exactly once, output path = output directory + relative path, equal sizes included) checked by TLC for every small tree and replayed on disk through the real dirWalk in all modes.  Beyond the property: ProcLog.tla models the --log-process thread; TLC\'s counterexample (join() blocks for ever) is replayed on the real thread and recorded in the evidence (no verdict).'),
         note=('Known finding F25 (same-stem RP66V1 inputs write the same LAS paths) is judged in its own scenario and recognised only when every '
               'difference is confined to the colliding files.  Benign damage may still convert.'),
         technique='TLA+ spec + TLC model checking of all schedules (safety + liveness); TLC trace validation of real pool/sequential runs; fault enumeration'),
